@@ -5,6 +5,7 @@ package main
 // answer that differs from the sequential one is written to the trace, where the specification judges it.
 
 import (
+	"io"
 	"math/rand"
 	"os"
 	"path/filepath"
@@ -14,6 +15,7 @@ import (
 	"sync"
 
 	"github.com/AdguardTeam/urlfilter/filterlist"
+	"github.com/AdguardTeam/urlfilter/rules"
 )
 
 // fileStorage is buildStorage over FileRuleLists (same list ids, same text, hence the same storage indexes).
@@ -154,4 +156,56 @@ func layoutCleanup() {
 		f()
 	}
 	layoutRing = nil
+}
+
+// ---- a list far longer than anything that fits in a test fixture ----
+
+// virtualList is a RuleList whose text is `pad` bytes of comment lines followed by `tail`; nothing of the padding is
+// ever held in memory, so offsets of hundreds of megabytes cost only the time to scan them.
+type virtualList struct {
+	id   int
+	pad  int64
+	tail string
+}
+
+type padReader struct{ left int64 }
+
+var padLine = []byte("! " + strings.Repeat("p", 4093) + "\n") // 4096 bytes
+
+func (p *padReader) Read(b []byte) (int, error) {
+	if p.left <= 0 {
+		return 0, io.EOF
+	}
+	n := 0
+	for n < len(b) && p.left > 0 {
+		off := int((int64(len(padLine)) - p.left%int64(len(padLine))) % int64(len(padLine)))
+		c := copy(b[n:], padLine[off:])
+		if int64(c) > p.left {
+			c = int(p.left)
+		}
+		n += c
+		p.left -= int64(c)
+	}
+	return n, nil
+}
+
+func newVirtualList(id int, padLines int, tail string) *virtualList {
+	return &virtualList{id: id, pad: int64(padLines) * int64(len(padLine)), tail: tail}
+}
+
+func (v *virtualList) GetID() int   { return v.id }
+func (v *virtualList) Close() error { return nil }
+func (v *virtualList) NewScanner() *filterlist.RuleScanner {
+	return filterlist.NewRuleScanner(io.MultiReader(&padReader{left: v.pad}, strings.NewReader(v.tail)), v.id, false)
+}
+func (v *virtualList) RetrieveRule(idx int) (rules.Rule, error) {
+	off := int64(idx) - v.pad
+	if off < 0 || off > int64(len(v.tail)) {
+		return nil, filterlist.ErrRuleRetrieval
+	}
+	line := v.tail[off:]
+	if k := strings.IndexByte(line, '\n'); k >= 0 {
+		line = line[:k]
+	}
+	return rules.NewRule(line, v.id)
 }
